@@ -2,6 +2,7 @@ package props
 
 import (
 	"fmt"
+	"go.pennock.tech/tabular/length"
 	"io"
 	"strings"
 	"sync"
@@ -105,6 +106,7 @@ func c10Targets() []c10Target {
 				return viaTo(func(w io.Writer) error { return auto.RenderTo(t, w, "Html") })
 			}},
 			{"auto.Wrap(t,html).RenderTo(w)", func(t tabular.Table) (string, error) { return viaTo(auto.Wrap(t, "html").RenderTo) }},
+			{"(&html.HTMLTable{Table: t}).Render (composite literal)", func(t tabular.Table) (string, error) { return (&html.HTMLTable{Table: t}).Render() }},
 			{c10StatusOnly + "html.Wrap(t).RenderTo(io.Discard)", func(t tabular.Table) (string, error) { return intoDiscard(html.Wrap(t).RenderTo) }},
 		}},
 		{"json", []c10Route{
@@ -116,6 +118,7 @@ func c10Targets() []c10Target {
 			{"json.Wrap(t).RenderTo(w)", func(t tabular.Table) (string, error) { return viaTo(json.Wrap(t).RenderTo) }},
 			{"auto.Render(t,json)", func(t tabular.Table) (string, error) { return auto.Render(t, "json") }},
 			{"auto.Wrap(t,JSON).RenderTo(w)", func(t tabular.Table) (string, error) { return viaTo(auto.Wrap(t, "JSON").RenderTo) }},
+			{"(&json.JSONTable{Table: t}).Render (composite literal)", func(t tabular.Table) (string, error) { return (&json.JSONTable{Table: t}).Render() }},
 			{c10StatusOnly + "json.RenderTo(t, io.Discard)", func(t tabular.Table) (string, error) {
 				return intoDiscard(func(w io.Writer) error { return json.RenderTo(t, w) })
 			}},
@@ -241,6 +244,11 @@ var c10Wrappers = []struct {
 	{"json.JSONTable by value", func(t tabular.Table) tabular.Table { return *json.Wrap(t) }},
 	{"markdown.MarkdownTable by value", func(t tabular.Table) tabular.Table { return *markdown.Wrap(t) }},
 	{"texttable.TextTable by value", func(t tabular.Table) tabular.Table { return *texttable.Wrap(t) }},
+	// wrappers made by composite literal rather than by Wrap (used here as the table of whatever is wrapped around them)
+	{"&html.HTMLTable{Table: t} literal", func(t tabular.Table) tabular.Table { return &html.HTMLTable{Table: t, Caption: "literal"} }},
+	// (a markdown or text wrapper made by literal lacks the measuring callback Wrap registers: what it renders itself
+	// is outside any statement, so those two are not used as links - C09 renders through them for totality)
+	{"&csv.CSVTable{Table: t} literal", func(t tabular.Table) tabular.Table { return &csv.CSVTable{Table: t} }},
 	// a wrapper type of the application's own, made the way the library makes its own: a struct embedding the Table
 	// interface (every method is the embedded table's) with fields of its own next to it
 	{"application-defined struct embedding tabular.Table (by pointer)", func(t tabular.Table) tabular.Table {
@@ -303,7 +311,7 @@ func c10Canary(c *Ctx, cs *c10Case, after string) bool {
 }
 
 func c10Run(c *Ctx, i int, r *gen.R) {
-	spec := r.Table(gen.TableOpts{MaxCols: 4, MaxRows: 5, ZeroHeaderOK: true, MinCols: 0, Noise: gen.NoiseSkipable | gen.NoiseAlign | gen.NoiseCallbacks,
+	spec := r.Table(gen.TableOpts{MaxCols: 4, MaxRows: 5, ZeroHeaderOK: true, MinCols: 0, Noise: gen.NoiseSkipable | gen.NoiseAlign | gen.NoiseCallbacks | gen.NoiseFailingCallbacks,
 		Item: func(r *gen.R) gen.ItemSpec {
 			switch r.Intn(12) {
 			case 0:
@@ -315,7 +323,7 @@ func c10Run(c *Ctx, i int, r *gen.R) {
 					return gen.ItemSpec{K: gen.Pick(r, []string{"nan", "inf", "complex"}), Flt: 1, Num: 2} // a render that fails part-way (JSON)
 				}
 			}
-			return r.TextItem(c10Fam, 5)
+			return r.TextItemSized(c10Fam, 5, length.StringCells)
 		}})
 	if r.Chance(1, 3) && spec.NCols() > 0 {
 		// headers every renderer accepts, so that JSON gets as far as the rows
